@@ -117,6 +117,11 @@ func (vc *VC) cutLoop(f *Frame, l *Loop, n *Node) {
 		}
 	}
 	env := f.invEnv(l, entryVals, n.St)
+	env.loopNext = n.St.H["next"]
+	if f.loopNexts == nil {
+		f.loopNexts = map[string]string{}
+	}
+	f.loopNexts[loopKey(l, n)] = n.St.H["next"]
 	for i, c := range l.Ann.Inv {
 		vc.oblige("loop-inv-entry", fmt.Sprintf("invariant %d of loop %d of %s does not hold on entry: %s", i, l.Ordinal, f.fn.Name(), c.Text),
 			n.Reach, env.evalGoal(c.E), append([]string{"@loop"}, c.Tags...)...)
@@ -169,6 +174,7 @@ func (vc *VC) cutLoop(f *Frame, l *Loop, n *Node) {
 		}
 	}
 	env2 := f.invEnv(l, newVals, n.St)
+	env2.loopNext = f.loopNexts[loopKey(l, n)]
 	for _, c := range l.Ann.Inv {
 		env2.assumeClause(n.Reach, c.E)
 	}
@@ -317,25 +323,22 @@ func (vc *VC) loopLocals(f *Frame, l *Loop, n *Node) []modTarget {
 
 // checkInvariant is called on a back edge of an invariant-annotated loop.
 func (vc *VC) checkInvariant(f *Frame, l *Loop, from *Node, predIdx int, cond, what string) {
-	if l.Ann.HasMod {
-		// per-iteration frame check against the loop's modifies clause
-		for _, lf := range f.loopFrames {
-			_ = lf
-		}
-		var hn *Node
-		for _, cand := range f.g.Order {
-			if cand.B == l.Header {
-				same := true
-				for o, it := range cand.Iters {
-					if o != l && from.Iters[o] != it {
-						same = false
-					}
-				}
-				if same {
-					hn = cand
+	var hn *Node
+	for _, cand := range f.g.Order {
+		if cand.B == l.Header {
+			same := true
+			for o, it := range cand.Iters {
+				if o != l && from.Iters[o] != it {
+					same = false
 				}
 			}
+			if same {
+				hn = cand
+			}
 		}
+	}
+	if l.Ann.HasMod {
+		// per-iteration frame check against the loop's modifies clause
 		if hn != nil {
 			if lf := f.loopFrames[loopKey(l, hn)]; lf != nil {
 				goals := vc.frameGoals(lf.head, from.St, lf.targets)
@@ -354,6 +357,9 @@ func (vc *VC) checkInvariant(f *Frame, l *Loop, from *Node, predIdx int, cond, w
 		}
 	}
 	env := f.invEnv(l, vals, from.St)
+	if hn != nil {
+		env.loopNext = f.loopNexts[loopKey(l, hn)]
+	}
 	if l.Ann.Decr != nil && f.measures[l] != "" {
 		m1 := env.toBV64(env.eval(l.Ann.Decr.E))
 		m0 := f.measures[l]
